@@ -290,7 +290,8 @@ class Gen:
         if zrate and self.chance(zrate):
             pool = zoo.EXEC + (zoo.EXEC_F08 if self.std == "f2008" and
                                self.features.get("f08", True) else [])
-            text = self.pick(pool)
+            hv = zoo.harvest_single(self.std if self.features.get("f08", True) else "f2003")
+            text = self.pick(hv) if hv and self.chance(0.35) else self.pick(pool)
             self.emit_zoo(text, depth, simple=True, f08=text in zoo.EXEC_F08, kind="zoo")
             return
         r = self.r.random()
